@@ -263,6 +263,11 @@ def gen_vlevel(rng, lay, wbl, inflate, depth, sizes):
     for g in lay["groups"]:
         n = rng.choice(sizes) if depth < 2 else rng.choice((0, 1, 2))
         ext = rng.choice([0, 0, 1, 5, 12]) if inflate else 0
+        narrow = TBITS[g["n"][1]] < TBITS[g["bl"][1]]
+        if inflate and depth == 0 and (rng.chance(1, 8) or (narrow and rng.chance(3, 4))):
+            # a block length that no longer fits one byte (a numInGroup type narrower than blockLength must not
+            # be used for the stride)
+            ext = rng.choice([250, 300])
         gw = g["cbl"] + ext
         if gw >= (1 << TBITS[g["bl"][1]]):
             gw = g["cbl"]
@@ -460,4 +465,12 @@ def edge_schema():
     s.messages.append(Message("E5", 5))                      # heartbeat: header only, blockLength 0
     m = Message("E6", 6); m.fields.append(Field("k", 1, "K16")); s.messages.append(m)   # constants only, blockLength 0
     m = Message("E7", 7); m.groups.append(Group("hollow", 10, "dim")); s.messages.append(m)  # header + one member-less group
+    # the SBE-recommended groupSizeEncoding: numInGroup (uint8) narrower than blockLength (uint16); wire blocks of 256+
+    # bytes must not be squeezed through the numInGroup type
+    s.add(TypeDef("dimNarrow", "composite", members=[TypeDef("blockLength", "type", prim="uint16"), TypeDef("numInGroup", "type", prim="uint8")]))
+    m = Message("E8", 8)
+    m.fields.append(Field("seq", 1, "uint16"))
+    g = Group("quotes", 10, "dimNarrow"); g.fields.append(Field("px", 1, "uint32")); g.fields.append(Field("qty", 2, "uint16")); m.groups.append(g)
+    g = Group("fills", 11, "dimNarrow"); g.fields.append(Field("id", 1, "uint16")); g.data.append(Data("txt", 12, "vd")); m.groups.append(g)
+    s.messages.append(m)
     return s
